@@ -148,6 +148,17 @@ fn encode_response(rt: &tokio::runtime::Runtime, status: StatusCode, headers: &[
     Ok(out)
 }
 
+/// The route a serving peer sees when a remote sends `route`: through the real request encoder
+/// and decoder (used by C16 so that routing is judged on what arrives, not on what was meant).
+pub fn route_via_wire(rt: &tokio::runtime::Runtime, route: &str) -> Result<String, String> {
+    let enc = encode_request(rt, route, &[], b"", false)?;
+    Ok(decode_request(rt, &enc, vec![])?.0)
+}
+
+pub fn wire_runtime() -> tokio::runtime::Runtime {
+    rt()
+}
+
 fn routes(max_len: usize) -> Vec<String> {
     let alpha = ['/', 'a', 'é', '\0', ' '];
     let mut out = vec![String::new()];
